@@ -22,6 +22,8 @@ CONFIGS = {
     "flush-rename":  [(1, "op", 0, "renameat"), (2, "flush", 1, ""), (3, "flush", 7, "")],
     # a Tflush that re-uses the busy tag it names: dropped like any request with a busy tag
     "flush-self-busy": [(1, "op", 0, "read"), (2, "flush", 1, ""), (1, "flush", 1, "")],
+    # a Tclunk held inside File.Close (class "none": nothing is ordered after it) and independent requests
+    "clunk-held":    [(1, "op", 0, "clunk"), (2, "op", 0, "getattr"), (3, "op", 0, "walk")],
     "dup-tag":       [(1, "op", 0, "getattr"), (1, "op", 0, "read"), (2, "op", 0, "write")],
     "tag-reuse":     [(1, "op", 0, "getattr"), (2, "op", 0, "read"), (1, "op", 0, "walk")],
     "bad-frame":     [(1, "op", 0, "read"), (2, "bad", 0, ""), (3, "op", 0, "getattr")],
